@@ -47,6 +47,30 @@ def pipe_switches(f, eb=None):
     return out
 
 
+def chain_any_switches(facts, f, eb=None):
+    """The iterator spelling of main's walk over the error chain: a switch on `err.chain().any(|c| … kind() == BrokenPipe …)`.
+    True edge = "a broken pipe is somewhere in the chain". The closure (and the closures it creates, e.g. the one given to
+    map_or after downcast_ref) must hold a BrokenPipe test."""
+    eb = eb or ExprBuilder(f)
+
+    def closure_tests_pipe(path, depth=0):
+        g = facts.fns.get(path)
+        if g is None or depth > 3:
+            return False
+        if pipe_switches(g) or any(is_pipe_test(ExprBuilder(g).rvalue(st["rv"])) for _, _, st in g.stmts()
+                                   if st["k"] == "assign" and st["place"]["l"] == 0) or \
+                any(is_pipe_test(ExprBuilder(g).call(c)) for c in g.calls()):
+            return True
+        return any(closure_tests_pipe(h.path, depth + 1) for h in facts.closures_of(path, recursive=False))
+
+    def pred(e):
+        return is_call(e, "core::iter::traits::iterator::Iterator::any") and \
+            any(is_call(x, "anyhow::error::<impl anyhow::Error>::chain", "anyhow::Error::chain") or
+                (x.k == "call" and x[1].endswith("::chain")) for x in walk(e)) and \
+            any(x.k == "closure" and closure_tests_pipe(x[1]) for x in walk(e))
+    return cond_switches(f, pred, eb)
+
+
 def loop_headers(f):
     return {h for _, h in C.back_edges(f)}
 
@@ -156,7 +180,7 @@ def status_rule(ctx, r):
     eb = ExprBuilder(main)
     froms = [c for c in main.calls() if c.is_("core::convert::From::from") and
              main.local_ty(c.dest["l"]).endswith("ExitCode")]
-    sw = pipe_switches(main, eb)
+    sw = pipe_switches(main, eb) + chain_any_switches(facts, main, eb)
     zeros = [c for c in froms if (op_const(c.args[0]) or {}).get("val") == 0]
     twos = [c for c in froms if (op_const(c.args[0]) or {}).get("val") == 2]
     others = [c for c in froms if c not in zeros and c not in twos]
@@ -183,7 +207,12 @@ def matched_rule(ctx, r):
     run = facts.fn("rg::run")
     eb = ExprBuilder(run)
     # the local named `matched`
+    # (found by what it holds — the answers of the mode functions — rather than by its name alone: a helper spliced into run
+    # may have a parameter of the same name)
     ls = [i for i, l in enumerate(run.locals) if l.get("name") == "matched"]
+    if len(ls) > 1:
+        ls = [i for i in ls if any(mentions_call(eb.local(i), f_) for f_ in ("rg::search", "rg::files", "rg::search_parallel", "rg::files_parallel"))
+              and len(run.defs().get(i, [])) >= 2][:1]
     if len(ls) != 1:
         r.bad("run|local", "anchor-missing: expected one local `matched` in rg::run", fn=run)
         return
@@ -358,6 +387,7 @@ def main_maps_pipe(facts):
     sw = [x for x in pipe_switches(m) if x[0] in live and mentions_call(x[3], "anyhow::error::<impl anyhow::Error>::chain",
                                                                         "anyhow::Error::chain", "core::any::<impl dyn core::error::Error>::downcast_ref",
                                                                         "downcast_ref")]
+    sw += [x for x in chain_any_switches(facts, m) if x[0] in live]
     if not sw:
         return False
     for bb, te, fe, e in sw:
@@ -694,7 +724,9 @@ def flag_rule(ctx, r):
         key = "err_message|%s|%d" % (fp, sorted(groups).index((fp, loc)))
         if not se_:
             r.bad(key, "err_message! expansion at %s does not call set_errored" % loc, fn=f, loc=loc)
-        elif all(C.dominates(f, se_[0].bb, o.bb) for o in others):
+        elif all(any(C.dominates(f, s_.bb, o.bb) for s_ in se_) for o in others):
+            # (one expansion may appear several times in a function when the helper holding it was spliced into more than one
+            # call site: each copy of the print needs a set_errored of the same expansion in front of it)
             r.ok(key, "set_errored dominates the print", fn=f)
         else:
             r.bad(key, "err_message! at %s prints before setting the error flag" % loc, fn=f, loc=loc)
